@@ -254,3 +254,29 @@ Example C04_wf_file_satisfiable :
   /\ transform_haps t_pop = Ok ([(7, 1, 10)], [1; 2], [[(true, false)]; [(false, true)]]).
 Proof. exact wf_file_satisfiable_lemma. Qed.
 Print Assumptions C04_wf_file_satisfiable.
+
+(* -- the repair of the allele index (defect 6) changes nothing on biallelic variants ------------------ *)
+
+Theorem C04_legacy_agrees_on_biallelic : forall G h,
+  forallb (bi_ok G) (h_vars h) = true ->
+  hap_transform_anc_legacy h G = hap_transform_anc h G.
+Proof. exact legacy_agrees_on_biallelic_lemma. Qed.
+Print Assumptions C04_legacy_agrees_on_biallelic.
+
+Theorem C04_legacy_set_agrees_on_biallelic : forall G H0,
+  forallb (fun h => forallb (bi_ok G) (h_vars h)) (real_haps H0) = true ->
+  haps_transform_anc_gen true false H0 G = haps_transform_anc H0 G.
+Proof. exact legacy_set_agrees_on_biallelic_lemma. Qed.
+Print Assumptions C04_legacy_set_agrees_on_biallelic.
+
+(* -- cells of the set-wise result, declaratively ---------------------------------------------------------- *)
+
+Theorem C04_set_cells_spec : forall G (anc : bool) H0 recs M,
+  has_dup (map gv_id (g_vars G)) = false ->
+  set_tr anc H0 G = Ok (recs, M) ->
+  forall s da i h, nth_error (rows G anc) s = Some da -> nth_error (real_haps H0) i = Some h ->
+    exists row b0 b1, nth_error M s = Some row /\ nth_error row i = Some (b0, b1)
+      /\ (b0 = true <-> strand_prop G anc h (fst (fst da)) (fst (snd da)))
+      /\ (b1 = true <-> strand_prop G anc h (snd (fst da)) (snd (snd da))).
+Proof. exact set_cells_spec_lemma. Qed.
+Print Assumptions C04_set_cells_spec.
